@@ -430,6 +430,29 @@ def r6(ctx, r):
         r.instance()
         r.expect(stt and work and all(elem_dominates(f, stt[0], w) for w in work) and acc and elem_dominates(f, acc[0], stt[0]), f, None, "wheel %s order" % name,
                  "TimingWheel::%s does not (1) stop accepting, (2) join the tick thread, (3) only then collect/clear entries" % name, okdesc="wheel %s: accepting=false → join tick thread → collect" % name)
+    # the pool: stop() reaches TimerService::stop() for EVERY service, whatever its state (a Draining service still has its
+    # loop thread and armed timers), and the destructor stops the pool
+    POOL = "iora::core::TimerServicePool"
+    ps = [f for f in ctx.fb().funcs(POOL + "::stop", TSF) if f.ok]
+    if len(ps) != 1:
+        raise AnalysisBroken("TimerServicePool::stop: %d definitions" % len(ps))
+    ps = ps[0]
+    stops = [e for e in ps.stmts() if e.node.get("k") == "mcall" and e.node.get("callee") == TS + "::stop"]
+    loops = [b for b in ps.blocks.values() if b.term and b.term.get("k") in ("CXXForRangeStmt", "ForStmt", "WhileStmt") and b.cond is not None]
+    r.instance()
+    if not stops or not loops:
+        r.fail(ps, None, "pool stop", "TimerServicePool::stop no longer loops over its services calling TimerService::stop")
+    else:
+        ranged = any(x.get("k") == "member" and x["n"] == POOL + "::_services" for e in ps.stmts() for x in walk(e.node))
+        body = loops[0].succs[0]
+        w = search(ps, ("block", body), lambda x, lb=loops[0]: x.block is lb, stop=lambda x: x in stops, eh=False) if body is not None else None
+        r.expect(ranged and w is None, ps, stops[0], "pool stop skips a service", "TimerServicePool::stop can pass over a service without calling its stop() (%s): a service that is Draining (or in any state the added "
+                 "condition excludes) keeps its loop thread and fires its armed timers after pool.stop() returned" % (witness_str(ps, w) if w else "services not iterated"),
+                 okdesc="pool stop: every iteration calls service->stop()")
+    pd = [f for f in ctx.fb().methods_of(POOL) if f.ok and f.kind == "dtor"]
+    r.instance()
+    r.expect(bool(pd) and any(e.node.get("k") == "mcall" and e.node.get("callee") == POOL + "::stop" for e in pd[0].stmts()), pd[0] if pd else ps, None, "pool destructor does not stop",
+             "~TimerServicePool does not call stop()", okdesc="~TimerServicePool stops the pool")
     stt = twf(ctx, "stopTickThread")
     r.instance()
     joins = [e for e in stt.stmts() if e.node.get("k") == "mcall" and e.node.get("callee") == "std::thread::join"]
